@@ -153,26 +153,36 @@ def r2_merge_reuses_result(ctx):
                         'does not return the result object it merged into',
                         key='return-other')
     m = p.func('db.common', 'BaseEvolutionOperations._are_ops_mergeable')
-    src = unparse(m.node)
     rets = [n for n in walk_no_nested(m.node) if isinstance(n, ast.Return)]
+    params = [x for x in m.params if x != 'self']
     ok = False
+    from ..util import unit
+    consults_table = any(
+        is_self_attr(x, 'mergeable_ops') for fn in unit(ctx, m)
+        for x in walk_no_nested(fn.node))
     for r in rets:
         v = r.value
         if isinstance(v, ast.BoolOp) and isinstance(v.op, ast.And) and \
-                len(v.values) == 2 and all(
-                    isinstance(x, ast.Compare) and
-                    isinstance(x.ops[0], ast.In) and
-                    is_self_attr(x.comparators[0], 'mergeable_ops')
-                    for x in v.values):
-            subs = {unparse(x.left) for x in v.values}
-            if len(subs) == 2 and all("['type']" in s for s in subs):
+                len(v.values) == 2 and len(params) == 2:
+            n1 = {x.id for x in ast.walk(v.values[0])
+                  if isinstance(x, ast.Name)} & set(params)
+            n2 = {x.id for x in ast.walk(v.values[1])
+                  if isinstance(x, ast.Name)} & set(params)
+            same = unparse(v.values[0]).replace(params[0], '@') == \
+                unparse(v.values[1]).replace(params[1], '@') or \
+                unparse(v.values[0]).replace(params[1], '@') == \
+                unparse(v.values[1]).replace(params[0], '@')
+            if len(n1) == 1 and len(n2) == 1 and n1 != n2 and same and \
+                    consults_table:
                 ok = True
     if ok:
-        ctx.ok(m, 'both ops must be in mergeable_ops')
+        ctx.ok(m, 'both ops must pass the same mergeability predicate, which '
+               'consults mergeable_ops')
     else:
         ctx.finding(m, rets[0] if rets else None, '_are_ops_mergeable is not '
-                    '"op1.type in mergeable_ops and op2.type in '
-                    'mergeable_ops"', key='mergeable-shape')
+                    'a conjunction of one and the same predicate (consulting '
+                    'mergeable_ops) applied to each of the two ops',
+                    key='mergeable-shape')
     f2 = p.func('db.common', 'BaseEvolutionOperations.generate_table_ops_sql')
     g2 = ctx.cfg(f2)
     apps = [n for n, c in nodes_with_call(g2, 'append')
@@ -362,7 +372,62 @@ def r5_adjacency(ctx):
                         'model name matches', key='new-on-match')
 
 
+def r6_run_mutations_queue_mergeable_ops(ctx):
+    """The property's "run" consists of AddField, DeleteField, non-type
+    ChangeField and ChangeMeta.  Every op those mutations' mutate() can queue
+    on the ModelMutator must be mergeable with its neighbours; an op that is
+    not (the generic 'sql' op used for creating / dropping the through table
+    of a ManyToManyField) closes the current alter-table result and the ops
+    after it start a second rebuild."""
+    ctx.rule('R-C18.6')
+    p = ctx.program
+    cls = p.cls('db.common', 'BaseEvolutionOperations')
+    owner, node = cls.find_attr('mergeable_ops')
+    members = set(p.const_collection(owner.module, node, owner) or [])
+    op_of_method = {}
+    for t, _d, m in model_mutator_producers(ctx):
+        op_of_method.setdefault(m.name, set()).add(t)
+    flagged = 'mergeable' in unparse(
+        p.func('db.common', 'BaseEvolutionOperations._are_ops_mergeable').node) \
+        and any('mergeable' in unparse(x) for x in [
+            p.func('mutators.model_mutator', 'ModelMutator.add_sql').node])
+    n = 0
+    for mod, q in (('mutations.add_field', 'AddField'),
+                   ('mutations.delete_field', 'DeleteField'),
+                   ('mutations.change_field', 'ChangeField'),
+                   ('mutations.change_meta', 'ChangeMeta')):
+        c = p.cls(mod, q)
+        for meth in c.methods.values():
+            if meth.name in ('simulate', '__init__', 'get_hint_params'):
+                continue
+            for call in walk_no_nested(meth.node):
+                if not (isinstance(call, ast.Call) and
+                        isinstance(call.func, ast.Attribute) and
+                        call.func.attr in op_of_method and
+                        'mutator' in unparse(call.func.value)):
+                    continue
+                n += 1
+                ops = op_of_method[call.func.attr]
+                bad = sorted(ops - members - {'change_column_type'})
+                if bad and flagged and kwarg(call, 'mergeable') is not None:
+                    bad = []
+                if bad:
+                    ctx.finding(meth, call, '%s queues a %r op (%s): that op '
+                                'type is not mergeable, so it closes the '
+                                'current table rebuild and the operations '
+                                'after it on the same model start a second '
+                                'one, although it never touches the model\'s '
+                                'own table' % (meth.qualname, bad[0],
+                                               unparse(call.func)),
+                                key='run-op-not-mergeable:%s' % bad[0])
+                else:
+                    ctx.ok(meth, '%s queues mergeable op(s) %s' % (
+                        meth.qualname, sorted(ops)), call)
+    ctx.floor('ModelMutator queueing calls in the run mutations', n, 5)
+
+
 def run(ctx):
+    r6_run_mutations_queue_mergeable_ops(ctx)
     r1_mergeable_table(ctx)
     r2_merge_reuses_result(ctx)
     r3_one_rebuild(ctx)
